@@ -329,3 +329,69 @@ Arguments is_class {A} g V c.
 Arguments pairwise_disjoint {A} _.
 Arguments disjoint {A} c d.
 Arguments nodes_of {A} g.
+
+(* ------------------------------------------------------------------ components for any class function *)
+Section GenComps.
+Variable A : Type.
+Variable eq_dec : forall x y : A, {x = y} + {x <> y}.
+Variable comp : A -> list A.
+Variable R : A -> A -> Prop.
+Hypothesis comp_iff : forall x y, In y (comp x) <-> R x y.
+Hypothesis Rrefl : forall x, R x x.
+Hypothesis Rsym : forall x y, R x y -> R y x.
+Hypothesis Rtrans : forall x y z, R x y -> R y z -> R x z.
+
+Fixpoint gcomps (todo : list A) (acc : list (list A)) : list (list A) :=
+  match todo with
+  | [] => acc
+  | x :: t => if existsb (mem eq_dec x) acc then gcomps t acc else gcomps t (acc ++ [comp x])
+  end.
+
+Definition gclass (V : list A) (c : list A) : Prop := exists x, In x V /\ forall y, In y c <-> R x y.
+
+Lemma gcomps_keeps todo acc c : In c acc -> In c (gcomps todo acc).
+Proof.
+  revert acc. induction todo as [|x t IH]; simpl; intros acc H; auto.
+  destruct (existsb (mem eq_dec x) acc); apply IH; auto. apply in_or_app; now left.
+Qed.
+Lemma gcomps_class V todo acc :
+  incl todo V -> (forall c, In c acc -> gclass V c) -> forall c, In c (gcomps todo acc) -> gclass V c.
+Proof.
+  revert acc. induction todo as [|x t IH]; simpl; intros acc I H c C; auto.
+  destruct (existsb (mem eq_dec x) acc).
+  - eapply IH; eauto. intros y Y; apply I; now right.
+  - eapply IH; [| |exact C]. { intros y Y; apply I; now right. }
+    intros c' C'. apply in_app_or in C'. destruct C' as [C'|[<-|[]]]; auto.
+    exists x. split; [apply I; now left|]. intros y. apply comp_iff.
+Qed.
+Lemma gcomps_cover todo acc x : In x todo -> exists c, In c (gcomps todo acc) /\ In x c.
+Proof.
+  revert acc. induction todo as [|a t IH]; simpl; intros acc H; [contradiction|].
+  destruct H as [->|H].
+  - destruct (existsb (mem eq_dec x) acc) eqn:E.
+    + apply existsb_exists in E. destruct E as [c [C M]]. exists c. split.
+      * now apply gcomps_keeps.
+      * now apply (mem_In A eq_dec).
+    + exists (comp x). split.
+      * apply gcomps_keeps. apply in_or_app. right. now left.
+      * apply comp_iff, Rrefl.
+  - destruct (existsb (mem eq_dec a) acc); now apply IH.
+Qed.
+Lemma gcomps_disjoint todo acc :
+  (forall c, In c acc -> exists z, forall y, In y c <-> R z y) ->
+  pairwise_disjoint acc -> pairwise_disjoint (gcomps todo acc).
+Proof.
+  revert acc. induction todo as [|x t IH]; simpl; intros acc H P; auto.
+  destruct (existsb (mem eq_dec x) acc) eqn:E; [now apply IH|].
+  apply IH.
+  - intros c C. apply in_app_or in C. destruct C as [C|[<-|[]]]; auto.
+    exists x. intros y. apply comp_iff.
+  - apply pd_snoc; auto. intros d Dd y Yd Yc.
+    destruct (H d Dd) as [z Z]. apply Z in Yd. apply comp_iff in Yc.
+    assert (In x d). { apply Z. eapply Rtrans; [exact Yd|]. now apply Rsym. }
+    assert (existsb (mem eq_dec x) acc = true). { apply existsb_exists. exists d. split; auto. now apply (mem_In A eq_dec). }
+    congruence.
+Qed.
+End GenComps.
+Arguments gcomps {A} eq_dec comp todo acc.
+Arguments gclass {A} R V c.
